@@ -11,19 +11,19 @@ CLAIMS = {
     "C01": (
         "other",
         "def-use classification of every schedule-dependent observation (taint-style non-interference) over MIR; who-may-call; shared reader laws",
-        "Decides clause (ii) of the decomposition: every use of buf_len / buf / buf_ptr / is_at_end outside the reader has a sanctioned shape (fast/cold selector comparison, prefix slice up to a looked-at offset, use after the source was exhausted, end test after a look-ahead at offset 0); parser code calls no schedule-exposing reader method; Interrupted is retried inside request_more without touching state; position and mark are conserved by refills (C02 laws, re-run here). That the fast and cold implementations compute the same function is C13 / value-level; faithfulness of the window is C02. R5 (shared with C13-R3/R4): the byte-wise scanners' exact behaviour and the fast-path hand-over, since input that arrives in pieces takes the byte-wise path. R6: the byte-wise keyword scan is a prefix scan like the word kernel - on its iteration graph, after an iteration that recorded no letter no later one can record one (the stop flag is followed as a constant through the variables the closure captured). R3 also: an Interrupted answer always leads back to the read (nothing else is reachable from the true edge of the kind test). R7 (shared with C02-R9): no construction path installs a chunk size that is not provably positive.",
+        "Decides clause (ii) of the decomposition: every use of buf_len / buf / buf_ptr / is_at_end outside the reader has a sanctioned shape (fast/cold selector comparison, prefix slice up to a looked-at offset, use after the source was exhausted, end test after a look-ahead at offset 0); parser code calls no schedule-exposing reader method; Interrupted is retried inside request_more without touching state; position and mark are conserved by refills (C02 laws, re-run here). That the fast and cold implementations compute the same function is C13 / value-level; faithfulness of the window is C02. R5 (shared with C13-R3/R4): the byte-wise scanners' exact behaviour and the fast-path hand-over, since input that arrives in pieces takes the byte-wise path. R6: the byte-wise keyword scan is a prefix scan like the word kernel - on its iteration graph, after an iteration that recorded no letter no later one can record one (the stop flag is followed as a constant through the variables the closure captured). R3 also: an Interrupted answer always leads back to the read (nothing else is reachable from the true edge of the kind test). R7 (shared with C02-R9): no construction path installs a chunk size that is not provably positive. R5 also runs C13-R1/R1b: the byte-wise scanners' overflow verdict (every step through overflowing_*, None exactly when a step overflowed) is the one the one-piece path gives.",
         "DESIGN.md §4 C01",
     ),
     "C02": (
         "other",
         "affine symbolic path execution over MIR (Karr-style linear equalities, no solver), guard dominance, field-store inventory",
-        "Decides that every reader method that writes a bookkeeping field preserves the laws the operation histories compose: position/mark conservation (advance by +n only; request_more and realignment leave both unchanged), window moved with exactly its bytes to offset 0, read results appended at the window end into a slice of exactly chunk_size behind n <= chunk_size, shrink keeps the window, complete/io_error set exactly on Ok(0)/non-Interrupted Err, from_buf_reader chains buffered bytes first. Content equality as such and std's Vec/slice semantics are trusted, not decided. R7: every observer (request_byte_at_offset, its cold path, buf, buf_ptr) indexes the buffer with the cursor as it is at that moment, also after a refill inside the same call. R8 (shared with C09-R1): requests fall short only at the end of the source or on an error (single read site, Interrupted retried in place). R4 also: the buffer is changed (length or contents) in request_more only - a mutable borrow of `buf` elsewhere may only feed len/capacity/reserve/shrink_to_fit. R9: every chunk size the library itself installs has a provable lower bound >= 1 (a read into an empty slice answers Ok(0)); the public setter's parameter is the caller's obligation, as in the property's quantifier.",
+        "Decides that every reader method that writes a bookkeeping field preserves the laws the operation histories compose: position/mark conservation (advance by +n only; request_more and realignment leave both unchanged), window moved with exactly its bytes to offset 0, read results appended at the window end into a slice of exactly chunk_size behind n <= chunk_size, shrink keeps the window, complete/io_error set exactly on Ok(0)/non-Interrupted Err, from_buf_reader chains buffered bytes first. Content equality as such and std's Vec/slice semantics are trusted, not decided. R7: every observer (request_byte_at_offset, its cold path, buf, buf_ptr) indexes the buffer with the cursor as it is at that moment, also after a refill inside the same call. R8 (shared with C09-R1): requests fall short only at the end of the source or on an error (single read site, Interrupted retried in place). R4 also: the buffer is changed (length or contents) in request_more only - a mutable borrow of `buf` elsewhere may only feed len/capacity/reserve/shrink_to_fit. R9: every chunk size the library itself installs has a provable lower bound >= 1 (a read into an empty slice answers Ok(0)); the public setter's parameter is the caller's obligation, as in the property's quantifier. R5 demands that complete is not written at all on the Ok(n) and Interrupted arms (a value computed from the read is not an end of input). R10 (shared with C14-R3): a refused advance leaves the window untouched - position and length are stored only behind the test that may panic, the window's bytes are moved before the first rebasing store.",
         "DESIGN.md §4 C02",
     ),
     "C03": (
         "other",
         "constant-table extraction from MIR (variant->constant matches, string-match chains, closure capture resolution) and writer/reader table comparison",
-        "Round-trip equality of arbitrary values is value-level and not decided. Decided is the necessary clause that the writer's and the reader's tables agree: the BTOR2 keyword relation is the same bijection on both sides and covers all 70 variants (incl. the token translation tables), the constant validators accept exactly the scanners' character classes, AIGER symbol prefixes/targets/index limits agree in both files, the varint reader accepts every length the writer emits, header field order and optional tail, latch reset forms, DIMACS framing words. R2 is position-sensitive where the validator is a chars() loop: the validator's automaton (with its boolean flag states) must be included in the language the scanner consumes. R4b: the varint writer's continuation-bit protocol. R10: free text (symbol names, comments, constants) is handed out verbatim - identity conversions only on what advance_with_buf returns, and only the terminator byte is cut off. R5b: only a suffix of zero counts is left out of the AIGER header (zero tests decide from the back). R11: the whole-file AIGER writers work through the circuit's fields in the order in which the parsers fill them, and every header count is taken from the field of the same name. R12: fields of a struct or variant are written in the order in which they are parsed (token-call order vs. emitting-call order, per struct/variant). R13: binary and gates - writer and reader chain the two deltas the same way and step the running code by 2. R14: BTOR2 placeholders (constants, justice conditions, symbol) are pointed at the buffer the parser filled for them. R15 (shared with C10-R1): per-item buffers are cleared before they are filled. R16: text writers never emit two numbers (or a number and a constant starting with a digit, like the terminating 0) back to back on any path (forward dataflow over each writer). R17: the DIMACS parsers hand out the header as parse_header read it, whatever the configuration.",
+        "Round-trip equality of arbitrary values is value-level and not decided. Decided is the necessary clause that the writer's and the reader's tables agree: the BTOR2 keyword relation is the same bijection on both sides and covers all 70 variants (incl. the token translation tables), the constant validators accept exactly the scanners' character classes, AIGER symbol prefixes/targets/index limits agree in both files, the varint reader accepts every length the writer emits, header field order and optional tail, latch reset forms, DIMACS framing words. R2 is position-sensitive where the validator is a chars() loop: the validator's automaton (with its boolean flag states) must be included in the language the scanner consumes. R4b: the varint writer's continuation-bit protocol. R10: free text (symbol names, comments, constants) is handed out verbatim - identity conversions only on what advance_with_buf returns, and only the terminator byte is cut off. R5b: only a suffix of zero counts is left out of the AIGER header (zero tests decide from the back). R11: the whole-file AIGER writers work through the circuit's fields in the order in which the parsers fill them, and every header count is taken from the field of the same name. R12: fields of a struct or variant are written in the order in which they are parsed (token-call order vs. emitting-call order, per struct/variant). R13: binary and gates - writer and reader chain the two deltas the same way and step the running code by 2. R14: BTOR2 placeholders (constants, justice conditions, symbol) are pointed at the buffer the parser filled for them. R15 (shared with C10-R1): per-item buffers are cleared before they are filled. R16: text writers never emit two numbers (or a number and a constant starting with a digit, like the terminating 0) back to back on any path (forward dataflow over each writer). R17: the DIMACS parsers hand out the header as parse_header read it, whatever the configuration. R13b (shared with C06-R6): the binary reader refuses a delta only when it is larger than its reference code - delta == code is the constant 0 as a gate input, which the writer emits.",
         "DESIGN.md §4 C03",
     ),
     "C04": (
@@ -35,7 +35,7 @@ CLAIMS = {
     "C05": (
         "other",
         "instance call-graph SCC analysis; taint analysis of declared numbers with guard-dominance discharge; allocation-size taint; loop progress rule; panic-site inventory with discharge classes",
-        "Decides: the workspace's instance call graph is acyclic (bounded stack); every overflow/division assert and every subtraction in parser-reachable code either has only measures of consumed input as operands or is discharged by a dominating guard, a bounded-result callee, or a listed bound; no allocation is sized by a declared number; every loop has a progress statement on every cycle; every panic-capable construct (unwrap, indexing, advance, explicit panic) is discharged by a class (scanned offsets, digits, pop-after-push, ...) or listed. Wall time, heap constants, allocator aborts and termination of Renumber::transfer on cyclic graphs are not decided. R7: a token function reports a match only after the cursor moved by a provably positive amount, so the parsers' loops over alternatives cannot spin. R2 also enumerates the integer methods of std that trap like the operators (abs, pow, neg, ...): none takes a declared number. R4: the listed reason for NonZeroU64::new(..).unwrap() is checked (digits parser unreachable from the edge on which the look-ahead primitive answered '0'); added assertions are discharged by an interval evaluator that knows dominating comparisons, return-value joins of workspace functions and byte classes. R4 also lists std functions with a hidden panic condition (String::truncate, Vec::remove, copy_from_slice, str slicing, ...): each use in parser-reachable code is reported. R8 (shared with C06-R1): range checks before lossy conversions, every lossy `as` cast listed with its bound. R4: a variable array or slice index needs a test against the length in front of the access.",
+        "Decides: the workspace's instance call graph is acyclic (bounded stack); every overflow/division assert and every subtraction in parser-reachable code either has only measures of consumed input as operands or is discharged by a dominating guard, a bounded-result callee, or a listed bound; no allocation is sized by a declared number; every loop has a progress statement on every cycle; every panic-capable construct (unwrap, indexing, advance, explicit panic) is discharged by a class (scanned offsets, digits, pop-after-push, ...) or listed. Wall time, heap constants, allocator aborts and termination of Renumber::transfer on cyclic graphs are not decided. R7: a token function reports a match only after the cursor moved by a provably positive amount, so the parsers' loops over alternatives cannot spin. R2 also enumerates the integer methods of std that trap like the operators (abs, pow, neg, ...): none takes a declared number. R4: the listed reason for NonZeroU64::new(..).unwrap() is checked (digits parser unreachable from the edge on which the look-ahead primitive answered '0'); added assertions are discharged by an interval evaluator that knows dominating comparisons, return-value joins of workspace functions and byte classes. R4 also lists std functions with a hidden panic condition (String::truncate, Vec::remove, copy_from_slice, str slicing, ...): each use in parser-reachable code is reported. R8 (shared with C06-R1): range checks before lossy conversions, every lossy `as` cast listed with its bound. R4: a variable array or slice index needs a test against the length in front of the access. R2's table of believed reasons was reduced: indices found by scanning a slice are bounded by recomputing which slice was scanned and what it was cut to (rules/scanidx.py), differences in reader methods by affine execution with the methods summarised from their bodies; the premises of the remaining entries are decided by rules that run here too (R3d = C08-R8/R9 line state, R9 = C06-R4 AIGER header bounds).",
         "DESIGN.md §4 C05",
     ),
     "C06": (
@@ -53,7 +53,7 @@ CLAIMS = {
     "C08": (
         "other",
         "interprocedural typestate analysis (mark set/unset) plus per-function path rules with affine offset matching over MIR",
-        "Decides how the three pieces of location state are maintained on every path to an error: mark() only after set_mark() on the current line (all API roots, all call paths), line_start never ahead of the cursor when an error can be raised or a token returns, every matched-and-consumed line feed is counted, errors raised only at the cursor or the mark, column formula. It does not decide that the column lies on the token for errors raised at the cursor after partial look-ahead, nor message text. R3 also: a whole line skipped with next_newline is counted with the same offset, and the line start is only set after the cursor moved when it moved by exactly the line feed. R6: a token whose error is located by its caller (error type other than ParseError) commits the error with the cursor still on the token (typestate: no advance on a path returning Res(Err)). R7: once a token function consumed the token it marked, it raises errors at the mark, not at the cursor (typestate per token function). R8: rejected AIGER comment section - the advance behind the last line feed and the counted slice are evaluated to linear forms over n and p (rev().position = n-1-p, rposition = p) and must be p+1 and p.",
+        "Decides how the three pieces of location state are maintained on every path to an error: mark() only after set_mark() on the current line (all API roots, all call paths), line_start never ahead of the cursor when an error can be raised or a token returns, every matched-and-consumed line feed is counted, errors raised only at the cursor or the mark, column formula. It does not decide that the column lies on the token for errors raised at the cursor after partial look-ahead, nor message text. R3 also: a whole line skipped with next_newline is counted with the same offset, and the line start is only set after the cursor moved when it moved by exactly the line feed. R6: a token whose error is located by its caller (error type other than ParseError) commits the error with the cursor still on the token (typestate: no advance on a path returning Res(Err)). R7: once a token function consumed the token it marked, it raises errors at the mark, not at the cursor (typestate per token function). R8: rejected AIGER comment section - the advance behind the last line feed and the counted slice are evaluated to linear forms over n and p (rev().position = n-1-p, rposition = p) and must be p+1 and p. R9: the line bookkeeping itself by affine path execution - LineReader::new starts at line 1 at the reader's position, line_at_offset(k) adds one line starting at position + k, give_up_at hands its position on unchanged, and line / line_start are stored nowhere else (except the comment-section token decided by R8).",
         "DESIGN.md §4 C08",
     ),
     "C09": (
@@ -65,19 +65,19 @@ CLAIMS = {
     "C10": (
         "other",
         "dominance rules over MIR (buffer reset discipline on the def-level call graph; guard extraction on the reader's compaction code); interprocedural typestate analysis (line ends looked at beyond the cursor)",
-        "The heap bound itself is a runtime quantity and is not decided. Decided are necessary structural conditions: every growth of a buffer that outlives the call, in code reachable from a streaming parser entry point, is dominated by a clear() of the same buffer; compaction in request_more is decided on live operands, moves the window to offset 0 and the buffer only grows when window + chunk does not fit. (Allocation sized by declared counts is C05-R5.) Also decided (R3, typestate over all token functions and streaming entry points): no second line end is looked at before the cursor moved past the first, so the look-ahead window - which the reader must keep - stays within one line (plus the AIGER comment section, one item by definition). R4 (shared with C05-R5): no allocation or reservation sized by a declared number. R1 treats every growing method of every std collection alike (push/insert/extend/entry/... on Vec, String, VecDeque, HashMap, HashSet, BTree*). R5 (shared with C05-R1): no recursion - the stack does not grow with the number of items. R6: look-ahead loops at a varying offset live in the token functions only; parser-level loops consume as they go. R7: chunk_size is stored by its setter and the constructor only. R8 (shared with C01-R2): request_more / request / set_chunk_size are not called from parser or scanner code.",
+        "The heap bound itself is a runtime quantity and is not decided. Decided are necessary structural conditions: every growth of a buffer that outlives the call, in code reachable from a streaming parser entry point, is dominated by a clear() of the same buffer; compaction in request_more is decided on live operands, moves the window to offset 0 and the buffer only grows when window + chunk does not fit. (Allocation sized by declared counts is C05-R5.) Also decided (R3, typestate over all token functions and streaming entry points): no second line end is looked at before the cursor moved past the first, so the look-ahead window - which the reader must keep - stays within one line (plus the AIGER comment section, one item by definition). R4 (shared with C05-R5): no allocation or reservation sized by a declared number. R1 treats every growing method of every std collection alike (push/insert/extend/entry/... on Vec, String, VecDeque, HashMap, HashSet, BTree*). R5 (shared with C05-R1): no recursion - the stack does not grow with the number of items. R6: look-ahead loops at a varying offset live in the token functions only; parser-level loops consume as they go. R7: chunk_size is stored by its setter and the constructor only. R8 (shared with C01-R2): request_more / request / set_chunk_size are not called from parser or scanner code. R9: binary AIGER has no lines - the look-ahead of the 7-bit number decoder has a constant bound tested inside its loop.",
         "DESIGN.md §4 C10",
     ),
     "C11": (
         "other",
         "who-may-call, guard dominance, post-dominance and linear-use (affine path execution) rules over the writer's MIR",
-        "Decides for every path of the writer's methods: the sink is called from two sites only, only while no error is parked, inside the panicked bracket, its error is parked; every flush clears the buffer and writes the whole buffer; in the cold path each part of the input is buffered or written exactly once in order (split at capacity - len); the error is taken exactly once and Write::flush reports it; drop flushes unless a sink write panicked; the integer fast path advances by the written length. Canonical decimal text (itoap) and std's write_all loop are trusted. R4 also: Write::write hands its whole input on and reports its full length (the integer slow path calls it once and ignores the count). R6 also: both paths of ascii_digits receive the caller's value unchanged.",
+        "Decides for every path of the writer's methods: the sink is called from two sites only, only while no error is parked, inside the panicked bracket, its error is parked; every flush clears the buffer and writes the whole buffer; in the cold path each part of the input is buffered or written exactly once in order (split at capacity - len); the error is taken exactly once and Write::flush reports it; drop flushes unless a sink write panicked; the integer fast path advances by the written length. Canonical decimal text (itoap) and std's write_all loop are trusted. R4 also: Write::write hands its whole input on and reports its full length (the integer slow path calls it once and ignores the count). R6 also: both paths of ascii_digits receive the caller's value unchanged. R8: the answer of every call that takes the parked error out (check_io_error, Write::flush on the writer) is handed on or examined, never dropped; silent flushes come from the cold write path, Write::flush and drop only.",
         "DESIGN.md §4 C11",
     ),
     "C12": (
         "other",
         "call-graph SCC check, def-use provenance of map keys vs. redefinition tests (sibling agreement), guard/dominance and expression-shape rules over MIR",
-        "Functional equivalence of the renumbered circuit (all circuits, all assignments, all option combinations) is value-level and NOT decided; neither are the const-fold case analysis, hash-consing or completeness of the cycle detection. Decided structural necessary conditions: no recursion (explicit stack), every kind of literal used as a key of the renumbering map passes a redefinition test yielding LitAlreadyDefined, every error variant has a producer on the right path and is propagated with `?`, inputs sorted (descending) before a gate is hashed or pushed, a fresh code before every pushed gate, inputs < latches < gates numbering order, LitMap/transfer polarity xor discipline. R5/R6 additionally decide that the literal handed back from the gate arm is the stored literal xor the polarity difference, and that every constant fold is an identity of AND on every decision path (conditions evaluated over the six representative codes). R7: source-circuit literals and renumbered literals (same type) are never compared or used in each other's place (flow-sensitive numbering tags). R8: the definition table is keyed by literals as written and every question to it covers both polarities (key-expression classes: plain / flipped / normalised). R9: literals are compared for identity only with literals of the same kind (requested literal vs. a definition's output as written). R3: the `?` on a fallible step must be reached on every way on from the call. R8 also: the definition table is read-only after lit_defs built it.",
+        "Functional equivalence of the renumbered circuit (all circuits, all assignments, all option combinations) is value-level and NOT decided; neither are the const-fold case analysis, hash-consing or completeness of the cycle detection. Decided structural necessary conditions: no recursion (explicit stack), every kind of literal used as a key of the renumbering map passes a redefinition test yielding LitAlreadyDefined, every error variant has a producer on the right path and is propagated with `?`, inputs sorted (descending) before a gate is hashed or pushed, a fresh code before every pushed gate, inputs < latches < gates numbering order, LitMap/transfer polarity xor discipline. R5/R6 additionally decide that the literal handed back from the gate arm is the stored literal xor the polarity difference, and that every constant fold is an identity of AND on every decision path (conditions evaluated over the six representative codes). R7: source-circuit literals and renumbered literals (same type) are never compared or used in each other's place (flow-sensitive numbering tags). R8: the definition table is keyed by literals as written and every question to it covers both polarities (key-expression classes: plain / flipped / normalised). R9: literals are compared for identity only with literals of the same kind (requested literal vs. a definition's output as written). R3: the `?` on a fallible step must be reached on every way on from the call. R8 also: the definition table is read-only after lit_defs built it. R10: every root section (latch next-states, outputs, bad-state, constraints, justice, fairness) is walked with a transfer per literal on every path on which initialize returns Ok (dominance of the loop header over every Ok, transfer dominates every latch, loops left towards Ok by exhaustion only), so an undefined root yields LitNotDefined and never a later unwrap panic.",
         "DESIGN.md §4 C12",
     ),
     "C13": (
@@ -89,7 +89,7 @@ CLAIMS = {
     "C14": (
         "other",
         "unsafe-operation inventory over MIR with guard-dominance patterns per class, field confinement, wrap-before-check rule",
-        "Every operation that needs `unsafe` in the workspace (27 today) is classified and must satisfy its class's guard pattern (dominating comparison with the same operands, invariant window, validated or ASCII-class bytes); unknown classes are violations. Trusted fields are private and confined; unchecked advancing is `unsafe fn`; no possibly wrapped value is stored into a trusted field before the check that panics; an untrusted Read cannot enlarge the window. UB inside std/itoap, aliasing models and the SWAR kernels' byte classes are not decided. R3 also: advance(n) writes no trusted field before the test that may panic. R5 (shared with C02-R4): the buffer is shortened only in request_more, behind the guard that keeps the window inside it.",
+        "Every operation that needs `unsafe` in the workspace (27 today) is classified and must satisfy its class's guard pattern (dominating comparison with the same operands, invariant window, validated or ASCII-class bytes); unknown classes are violations. Trusted fields are private and confined; unchecked advancing is `unsafe fn`; no possibly wrapped value is stored into a trusted field before the check that panics; an untrusted Read cannot enlarge the window. UB inside std/itoap, aliasing models and the SWAR kernels' byte classes are not decided. R3 also: advance(n) writes no trusted field before the test that may panic. R5 (shared with C02-R4): the buffer is shortened only in request_more, behind the guard that keeps the window inside it. R3 also: in request_more the window's bytes are moved before the first rebasing store (a mover that panics leaves the old, consistent window behind).",
         "DESIGN.md §4 C14",
     ),
     "C15": (
@@ -101,7 +101,7 @@ CLAIMS = {
     "C16": (
         "proof",
         "exhaustive abstract interpretation of MIR over (offset label, byte class), behaviour transition systems compared with generated specifications; call-graph effect confinement",
-        "For tabs_or_spaces, newline, next_newline and fixed the transition system (look-ahead offset, 256-bit byte class incl. end-of-input on every edge, returned offset) is extracted from MIR for entry offsets 0 and 1 (patterns '', 'a', 'ab', 'aa' for fixed) and must equal the documented behaviour exactly, including the absence of any look-ahead the documentation does not require; plus who-may-call confinement (no advance/mark/line effects reachable). Offsets above 3 are tracked as a lower bound only. R6 (shared with C02-R3/R4/R7): the look-ahead primitive the helpers see the input through answers from a faithful window (reads appended at the window end, shrinking keeps the window, observers index at the current cursor). Also C02-R6: a reader built from a BufReader reads on from the inner source, not through the BufReader.",
+        "For tabs_or_spaces, newline, next_newline and fixed the transition system (look-ahead offset, 256-bit byte class incl. end-of-input on every edge, returned offset) is extracted from MIR for entry offsets 0 and 1 (patterns '', 'a', 'ab', 'aa' for fixed) and must equal the documented behaviour exactly, including the absence of any look-ahead the documentation does not require; plus who-may-call confinement (no advance/mark/line effects reachable). Offsets above 3 are tracked as a lower bound only. R6 (shared with C02-R3/R4/R7): the look-ahead primitive the helpers see the input through answers from a faithful window (reads appended at the window end, shrinking keeps the window, observers index at the current cursor). Also C02-R6: a reader built from a BufReader reads on from the inner source, not through the BufReader. R6 also runs C02-R5: the end of input the helpers stop at is the end of the source (complete only on Ok(0) / a failed read, never after a short read).",
         "DESIGN.md §4 C16",
     ),
 }
